@@ -34,4 +34,23 @@ def mloop (c impl : List String) : Option Verdict := do
          oracle := Spec.C05.holdsSeq min max 0 implW && implW.length == draws.length,
          nontrivial := decide (min < max) && decide (draws.length ≥ 4) }
 
+/-- `mstall idx stall min max n draws… | gaps…`: the consumer is busy for `stall` before it takes the
+    request that ends wait number `idx`: that gap is `max wait stall`, every other gap is the wait the
+    loop chose — in particular the waits after the stall are full waits again -/
+def mstall (c impl : List String) : Option Verdict := do
+  let (idx, stall, min, max, draws) ← P.run (do
+    let i ← P.nat; let s ← P.int
+    let mn ← P.int; let mx ← P.int; let ds ← P.list P.int; pure (i, s, mn, mx, ds)) c
+  let ws := waits draws min max 0
+  let want := ws.zipIdx.map fun (w, k) => if k == idx then (if w < stall then stall else w) else w
+  let implW ← P.run (P.list P.int) impl
+  -- the oracle: every gap except the stalled one is within the property's bounds
+  let others := (implW.zipIdx.filter fun (_, k) => k != idx).map (·.1)
+  let othersWant := (want.zipIdx.filter fun (_, k) => k != idx).map (·.1)
+  pure { model := s!"{want.length} {joinInts want}".trimAsciiEnd.toString,
+         oracle := implW.length == draws.length && others == othersWant &&
+           (implW.zipIdx.all fun (g, k) => k != idx || decide (g ≥ (if min < stall then min else stall))),
+         nontrivial := decide (draws.length ≥ 4),
+         note := if others != othersWant then "a wait chosen after the consumer had been slow is not a full [Min, Max] wait (the loop tries to catch up)" else "" }
+
 end Driver.C05
